@@ -71,7 +71,8 @@ def gen_model(rng, maxv, pairs=None, version=None, canonical=False):
             shape_mesh = has_shapes and mi == 0
             els, strides = gen_decl(rng, nstreams, pairs, need_position=[mdl.SINGLE3, mdl.SINGLE4] if shape_mesh else None)
             k = rng.random()
-            vcount = rng.choice([0, 1, 2, 3, 17]) if k < 0.3 else rng.randint(1, 300) if k < 0.9 else rng.randint(300, maxv)
+            vcount = rng.choice([0, 1, 2, 3, 17]) if k < 0.3 else rng.randint(1, min(300, maxv)) if (k < 0.9 or maxv <= 300) else rng.randint(300, maxv)
+            vcount = min(vcount, maxv)
             if shape_mesh:
                 vcount = max(vcount, 2)
             streams = [bytearray(rng.randbytes(vcount * strides[s])) for s in range(nstreams)]
@@ -81,7 +82,7 @@ def gen_model(rng, maxv, pairs=None, version=None, canonical=False):
                         for v in range(vcount):
                             n = 3 if t == mdl.SINGLE3 else 4
                             struct.pack_into("<%dI" % n, streams[s], strides[s] * v + off, *[nice_f32(rng) for _ in range(n)])
-            nidx = rng.choice([0, 3, 6, 30]) if rng.random() < 0.6 else rng.randint(0, 2000)
+            nidx = rng.choice([0, 3, 6, 30]) if rng.random() < 0.6 else rng.randint(0, min(2000, 10 * maxv))
             if shape_mesh:
                 nidx = max(nidx, 3)
                 indices = [rng.randrange(vcount) for _ in range(nidx)]
